@@ -29,6 +29,9 @@ type Pool struct {
 	N       int
 	TmpDir  string
 	Args    []string // extra args passed to every worker
+	// Recycle, when set, is asked after every answer whether the worker process must be replaced by a new one
+	// (e.g. the job made the real code leak descriptors).
+	Recycle func(answer json.RawMessage) bool
 	workers []*worker
 	// Crashed counts worker deaths.
 	Crashed atomic.Int64
